@@ -49,9 +49,55 @@ func (s *StateMachine) HandleByzantine(qc *lib.QuorumCertificate, vs *lib.Valida
 	slashRecipients := qc.Results.SlashRecipients
 	// sanity check the slash recipient isn't nil
 	if slashRecipients != nil {
+		doubleSigners := slashRecipients.DoubleSigners
+		// the chain's own certificate is executed by BeginBlock from the already committed block: an error here would fail every
+		// possible next block. A (validator, height) pair it names may have been slashed in the meantime (by a nested committee's
+		// certificate results in the very block this certificate decided - the replicas check their list against the committed
+		// index, which cannot show that): such a pair is not slashed again, the rest of the list is
+		if qc.Header.ChainId == s.Config.ChainId {
+			if doubleSigners, err = s.dropKnownDoubleSigners(doubleSigners); err != nil {
+				return 0, err
+			}
+		}
 		// set in state and slash double signers
-		if err = s.HandleDoubleSigners(qc.Header.ChainId, params, slashRecipients.DoubleSigners); err != nil {
+		if err = s.HandleDoubleSigners(qc.Header.ChainId, params, doubleSigners); err != nil {
 			return 0, err
+		}
+	}
+	return
+}
+
+// dropKnownDoubleSigners() returns the list without the (validator, height) pairs that are already indexed as double signs
+func (s *StateMachine) dropKnownDoubleSigners(doubleSigners []*lib.DoubleSigner) (filtered []*lib.DoubleSigner, err lib.ErrorI) {
+	store, ok := s.Store().(lib.StoreI)
+	if !ok {
+		return nil, ErrWrongStoreType()
+	}
+	for _, doubleSigner := range doubleSigners {
+		// malformed entries are left for HandleDoubleSigners to report
+		if doubleSigner == nil || doubleSigner.Id == nil || len(doubleSigner.Heights) == 0 {
+			filtered = append(filtered, doubleSigner)
+			continue
+		}
+		pubKey, e := crypto.NewPublicKeyFromBytes(doubleSigner.Id)
+		if e != nil {
+			filtered = append(filtered, doubleSigner)
+			continue
+		}
+		var heights []uint64
+		for _, height := range doubleSigner.Heights {
+			isValidDS, er := store.IsValidDoubleSigner(pubKey.Address().Bytes(), height)
+			if er != nil {
+				return nil, er
+			}
+			if isValidDS {
+				heights = append(heights, height)
+			} else {
+				s.log.Warnf("double signer %s already slashed for height %d", pubKey.Address().String(), height)
+			}
+		}
+		if len(heights) != 0 {
+			filtered = append(filtered, &lib.DoubleSigner{Id: doubleSigner.Id, Heights: heights})
 		}
 	}
 	return
